@@ -233,6 +233,34 @@ def check_program(case):
                         out.viol('double-wrapping', '%s of %s: the same decorator appears twice in the chain %s' % (sname, label, ch), outer=names[-1], n=len(st), through_chain=True)
         except Exception as e:
             out.viol('wrapping-raised', 're-wrapping %s of %s raised %s: %s' % (sname, label, type(e).__name__, e), stack=names, again=True)
+        # ---- wrapping an existing wrapped function once more must leave THAT object as it was (same chain of decorators, same behaviour)
+        if len(st) >= 2:
+            out.sub()
+            try:
+                h = fr
+                for i in st[:-1]:
+                    h = D[i][1](h)
+                chain_before = _chain(h)
+
+                def probe(w):
+                    res_ = []
+                    for args, kw in C[:4]:
+                        for boom in (False, True):
+                            a2 = tuple('boom' if (boom and i_ == 0) else v for i_, v in enumerate(args))
+                            k2 = {k_: ('boom' if (boom and not args and i_ == 0) else v) for i_, (k_, v) in enumerate(kw.items())}
+                            try:
+                                res_.append(('ok', repr(w(*a2, **k2))))
+                            except Exception as e_:
+                                res_.append(('raise', type(e_).__name__))
+                    return res_
+                before = probe(h)
+                D[st[-1]][1](h)
+                out.call()
+                if _chain(h) != chain_before or probe(h) != before:
+                    out.viol('wrapping-mutates-operand', '%s: after wrapping x = %s once more with %s, x itself has the chain %s (was %s) and answers %s (was %s)' % (
+                        label, '('.join(reversed(names[:-1])) + '(f' + ')' * (len(st) - 1), names[-1], _chain(h), chain_before, probe(h)[:4], before[:4]), outer=names[-1], n=len(st))
+            except Exception as e:
+                out.viol('wrapping-raised', 're-wrapping check of %s raised %s: %s' % (sname, type(e).__name__, e), stack=names, again=True)
         # ---- results on every valid call
         has_ks = 'kwargs_support' in names
         for args, kw in C:
